@@ -60,11 +60,17 @@ func c13Snssai(c *core.Ctx, k *core.Case) {
 		m.Sd = mixCase(sdHex(want.SD), uint64(sd>>3)%5)
 	}
 	c.Eval(1)
+	if _, owned := ownedTwice(func() []byte { return nasConvert.SnssaiToNas(m) }); owned != "" {
+		c.Fail(k, "result-not-owned:SnssaiToNas", owned)
+	}
 	enc := nasConvert.SnssaiToNas(m)
 	c.Hold(k, "nasConvert.SnssaiToNas", enc)
 	got, err := refconv.ParseNssai(enc)
 	if err != nil || len(got) != 1 || got[0] != want {
 		c.Fail(k, "snssai-layout", fmt.Sprintf("SnssaiToNas(%+v) = %x; spec decoder: %+v %v, want %+v", m, enc, got, err, want))
+	}
+	if _, owned := ownedTwice(func() []byte { return nasConvert.RejectedSnssaiToNas(m, cause) }); owned != "" {
+		c.Fail(k, "result-not-owned:RejectedSnssaiToNas", owned)
 	}
 	rej := nasConvert.RejectedSnssaiToNas(m, cause)
 	c.Hold(k, "nasConvert.RejectedSnssaiToNas", rej)
@@ -173,6 +179,9 @@ func c13RejectedNssai(c *core.Ctx, k *core.Case) {
 		inTa = append(inTa, mk(1))
 	}
 	c.Eval(1)
+	if _, owned := ownedTwice(func() []byte { return nasConvert.RejectedNssaiToNas(inPlmn, inTa).Buffer }); owned != "" {
+		c.Fail(k, "result-not-owned:RejectedNssaiToNas", owned)
+	}
 	e := nasConvert.RejectedNssaiToNas(inPlmn, inTa)
 	c.Hold(k, "nasConvert.RejectedNssaiToNas", e.Buffer)
 	got, err := refconv.ParseRejectedNssai(e.GetRejectedNSSAIContents())
@@ -232,6 +241,9 @@ func c13TaiList(c *core.Ctx, k *core.Case) {
 	r := prng.New(uint64(k.I[0]))
 	ms, want := c13RandTais(r, int(k.I[1]), int(k.I[2]))
 	c.Eval(1)
+	if _, owned := ownedTwice(func() []byte { return nasConvert.TaiListToNas(ms) }); owned != "" {
+		c.Fail(k, "result-not-owned:TaiListToNas", owned)
+	}
 	enc := nasConvert.TaiListToNas(ms)
 	c.Hold(k, "nasConvert.TaiListToNas", enc)
 	got, err := refconv.ParseTaiList(enc)
@@ -269,6 +281,11 @@ func c13ServiceArea(c *core.Ctx, k *core.Case) {
 		rt = models.RestrictionType_NOT_ALLOWED_AREAS
 	}
 	c.Eval(1)
+	if _, owned := ownedTwice(func() []byte {
+		return nasConvert.PartialServiceAreaListToNas(models.PlmnId{Mcc: mcc, Mnc: mnc}, models.ServiceAreaRestriction{RestrictionType: rt, Areas: areas})
+	}); owned != "" {
+		c.Fail(k, "result-not-owned:PartialServiceAreaListToNas", owned)
+	}
 	enc := nasConvert.PartialServiceAreaListToNas(models.PlmnId{Mcc: mcc, Mnc: mnc}, models.ServiceAreaRestriction{RestrictionType: rt, Areas: areas})
 	c.Hold(k, "nasConvert.PartialServiceAreaListToNas", enc)
 	got, err := refconv.ParseServiceAreaList(enc)
@@ -291,6 +308,9 @@ func c13Ladn(c *core.Ctx, k *core.Case) {
 	ms, want := c13RandTais(r, int(k.I[1]), int(k.I[2]))
 	dnn := dnnOctets(r, int(k.I[3]))
 	c.Eval(1)
+	if _, owned := ownedTwice(func() []byte { return nasConvert.LadnToNas(string(dnn), ms) }); owned != "" {
+		c.Fail(k, "result-not-owned:LadnToNas", owned)
+	}
 	enc := nasConvert.LadnToNas(string(dnn), ms)
 	c.Hold(k, "nasConvert.LadnToNas", enc)
 	got, err := refconv.ParseLadnInformation(enc)
